@@ -12,9 +12,10 @@ Open Scope Z_scope.
 (* ---- layer A: kit-owned byte / length level code ---- *)
 
 (* aeskw.Wrap: for EVERY key-material length the result is fully determined — 8 bytes longer
-   when the length is a multiple of 8, an error otherwise; in particular never a panic. *)
+   when the length is a non-zero multiple of 8, an error otherwise (empty key data is refused
+   since the C03 fix); in particular never a panic. *)
 Theorem C07_kw_wrap_total : forall cekLen, 0 <= cekLen ->
-  kw_wrap 16 cekLen = if cekLen mod 8 =? 0 then Ok (cekLen + 8) else err.
+  kw_wrap 16 cekLen = if (cekLen =? 0) || negb (cekLen mod 8 =? 0) then err else Ok (cekLen + 8).
 Proof. exact kw_wrap_total. Qed.
 Print Assumptions C07_kw_wrap_total.
 
